@@ -43,6 +43,25 @@ def attempt(name, sources, workdir, arglists, extra=()):
                     'output': out, 'build': info}
     return {'reproduced': False, 'tried': tried[:20], 'build': info}
 
+def tsan_attempt(name, sources, workdir, extra=(), timeout=180):
+    """build /verif/replay/tsan/<name>.cpp with the listed real sources under ThreadSanitizer and run it: a data-race report that names
+    code under /repo/modules is the reproduction (used for failed guarded-by / lock-discipline obligations)"""
+    os.makedirs(workdir, exist_ok=True)
+    exe = os.path.join(workdir, name + '_tsan')
+    inc = ['-I' + REPO + '/modules', '-I' + REPO + '/3rd-party'] + (['-I' + os.path.join(REPO, '_build/include')] if os.path.isdir(os.path.join(REPO, '_build/include')) else ['-I/repo/_build/include'])
+    cmd = ['clang++', '-std=gnu++11', '-g', '-O1', '-fsanitize=thread', '-w', '-pthread'] + inc + [os.path.join(VERIF, 'replay', 'tsan', name + '.cpp')] + [os.path.join(REPO, s) for s in sources] + list(extra) + ['-ldl', '-o', exe]
+    p = subprocess.run(cmd, stdout=subprocess.PIPE, stderr=subprocess.STDOUT, universal_newlines=True, timeout=600)
+    if p.returncode != 0: return {'reproduced': False, 'error': 'tsan driver build failed', 'log': p.stdout[-3000:]}
+    try:
+        r = subprocess.run([exe], stdout=subprocess.PIPE, stderr=subprocess.STDOUT, universal_newlines=True, timeout=timeout, errors='replace')
+        out, rc = r.stdout, r.returncode
+    except subprocess.TimeoutExpired:
+        return {'reproduced': True, 'input_source': 'tsan-driver', 'driver': 'tsan/' + name + '.cpp', 'args': [], 'rc': -9, 'output': 'hang: driver did not finish in %ss' % timeout, 'build': ' '.join(cmd)}
+    if 'ThreadSanitizer: data race' in out and (REPO + '/modules') in out:
+        i = out.index('WARNING: ThreadSanitizer')
+        return {'reproduced': True, 'input_source': 'tsan-driver', 'driver': 'tsan/' + name + '.cpp', 'args': [], 'rc': rc, 'output': out[i:i + 3500], 'build': ' '.join(cmd)}
+    return {'reproduced': False, 'tried': [{'input_source': 'tsan-driver', 'rc': rc}], 'build': ' '.join(cmd)}
+
 def steps_values(w, fn, lhs):
     """values assigned to `lhs` inside function `fn` along the counterexample trace, in order"""
     return [v for (f, l, v) in w.get('steps', []) if f == fn and l == lhs]
